@@ -495,9 +495,78 @@ fn sweep_adjusted_price(tier: Tier, a: &mut Acc) {
     }
 }
 
+/// a venue reserve / market counts only when it was refreshed in the current slot (Kamino, Solend) or
+/// second (Drift): every venue oracle setup x refresh lag, through the real adapter
+fn sweep_staleness(a: &mut Acc) {
+    use crate::svm::{with_account_infos, Acct};
+    use crate::world::{key, pyth_account, swb_account};
+    use marginfi::state::price::{OraclePriceFeedAdapter, OraclePriceType, PriceAdapter};
+    use marginfi_type_crate::types::{Bank, OracleSetup};
+    let now = 1_700_000_000i64;
+    let clock = solana_program::clock::Clock { slot: 250_000_000, unix_timestamp: now, ..Default::default() };
+    let (oracle_k, venue_k) = (key("c20s:oracle"), key("c20s:venue"));
+    let setups = [OracleSetup::KaminoPythPush, OracleSetup::KaminoSwitchboardPull, OracleSetup::SolendPythPull, OracleSetup::SolendSwitchboardPull, OracleSetup::DriftPythPull, OracleSetup::DriftSwitchboardPull];
+    for setup in setups {
+        for lag in [0u64, 1, 2, 3600, 2_592_000] {
+            let mut bank: Bank = bytemuck::Zeroable::zeroed();
+            bank.config.oracle_setup = setup;
+            bank.config.oracle_keys[0] = oracle_k;
+            bank.config.oracle_keys[1] = venue_k;
+            bank.config.oracle_max_age = 60;
+            let pyth_side = matches!(setup, OracleSetup::KaminoPythPush | OracleSetup::SolendPythPull | OracleSetup::DriftPythPull);
+            let oracle = if pyth_side { pyth_account(100_000_000, 0, 100_000_000, 0, -8, now, true) } else { swb_account(1_000_000_000_000_000_000, 0, now) };
+            let vacct = match setup {
+                OracleSetup::KaminoPythPush | OracleSetup::KaminoSwitchboardPull => {
+                    let mut r: MinimalReserve = bytemuck::Zeroable::zeroed();
+                    r.available_amount = 2_000_000_000;
+                    r.mint_total_supply = 1_000_000_000;
+                    r.mint_decimals = 6;
+                    r.slot = clock.slot - lag;
+                    let mut d = kamino_mocks::state::RESERVE_DISCRIMINATOR.to_vec();
+                    d.extend_from_slice(bytemuck::bytes_of(&r));
+                    Acct::new(1, d, kamino_mocks::ID)
+                }
+                OracleSetup::SolendPythPull | OracleSetup::SolendSwitchboardPull => {
+                    let mut r: SolendMinimalReserve = bytemuck::Zeroable::zeroed();
+                    r.liquidity_available_amount = 2_000_000_000;
+                    r.collateral_mint_total_supply = 1_000_000_000;
+                    r.liquidity_mint_decimals = 6;
+                    r.last_update_slot = clock.slot - lag;
+                    let mut d = solend_mocks::state::RESERVE_DISCRIMINATOR.to_vec();
+                    d.extend_from_slice(bytemuck::bytes_of(&r));
+                    Acct::new(1, d, solend_mocks::ID)
+                }
+                _ => {
+                    let mut m = MinimalSpotMarket::default();
+                    m.cumulative_deposit_interest = 11_000_000_000u128.to_le_bytes();
+                    m.decimals = 6;
+                    m.last_interest_ts = (now as u64) - lag;
+                    let mut d = drift_mocks::state::SPOT_MARKET_DISCRIMINATOR.to_vec();
+                    d.extend_from_slice(bytemuck::bytes_of(&m));
+                    Acct::new(1, d, drift_mocks::ID)
+                }
+            };
+            let got = with_account_infos(clock.clone(), &[(oracle_k, oracle), (venue_k, vacct)], |ais| {
+                std::panic::catch_unwind(std::panic::AssertUnwindSafe(|| OraclePriceFeedAdapter::try_from_bank_with_max_age(&bank, ais, &clock, 60).ok().and_then(|ad| ad.get_price_of_type(OraclePriceType::RealTime, None, 0).ok()))).unwrap_or(None)
+            });
+            a.evals += 1;
+            a.class(&format!("staleness:{:?}:lag{}:{}", setup, if lag == 0 { "0" } else { ">0" }, if got.is_some() { "priced" } else { "refused" }));
+            let rep = json!({"fn": "staleness", "setup": format!("{:?}", setup), "lag": lag});
+            if lag > 0 {
+                if let Some(p) = got {
+                    a.fail("C20.unrefreshed_venue_is_stale", &format!("{:?}", setup), format!("{:?}: a reserve / market last refreshed {lag} {} ago still prices the bank ({p})", setup, if matches!(setup, OracleSetup::DriftPythPull | OracleSetup::DriftSwitchboardPull) { "s" } else { "slots" }), rep);
+                }
+            } else if got.is_none() {
+                a.fail("C20.fresh_venue_prices", &format!("{:?}", setup), format!("{:?}: the adapter refuses a reserve / market refreshed in the current slot / second (harness construction problem or over-strict staleness)", setup), rep);
+            }
+        }
+    }
+}
+
 pub fn run(tier: Tier) -> Outcome {
     let mut a = Acc { evals: 0, classes: BTreeMap::new(), found: vec![], samples: vec![] };
     sweep_scaled(tier, &mut a);
+    sweep_staleness(&mut a);
     sweep_adjust(tier, &mut a);
     sweep_kamino_solend(tier, &mut a);
     sweep_drift(tier, &mut a);
